@@ -116,9 +116,8 @@ Example kill_keeps_acked_instance :
     /\ lo <= length closed - 2
     /\ bs "abc0abc1abc2" = concat (firstn lo closed) ++ kv_stream closed ocur lo.
 Proof.
-  assert (HL : (N.of_nat (S (length kx1 + length kx2)) <= 100000)%N) by (vm_compute; discriminate).
   destruct (numbers_cleanup_kill_keeps_acked (kc (KLogGz 1 1)) (CSize 3) (KLogGz 1 1) 1 1 0 0 kx1 5 kx2
-              (kc_numkcfg _) eq_refl eq_refl (kc_sfx _) kx1_basic kx2_basic HL) as (cl & oc & lo & V & F & Hlo & T).
+              (kc_numkcfg _) eq_refl eq_refl (kc_sfx _) kx1_basic kx2_basic) as (cl & oc & lo & V & F & Hlo & T).
   assert (E : written kx1 ++ acked (fst (run (sys0 0 0) (OStart (kc (KLogGz 1 1)) :: kx1 ++ [OSetKill 5]))) kx2 = bs "abc0abc1abc2")
     by (vm_compute; reflexivity).
   rewrite E in F, T. exists cl, oc, lo. auto.
@@ -184,7 +183,7 @@ Example kill_restart_instance :
        /\ lo <= length closed - 2 /\ pre = []
        /\ exists cu, ocur = Some cu /\ kreader_view (kc (KLogGz 1 1)) (wfs (s_w (fst r2))) closed cu lo (length closed - 1).
 Proof.
-  assert (HL : (N.of_nat (length kx1 + length kx2 + length kx3 + 3) <= 100000)%N) by (vm_compute; discriminate).
+  assert (HL : (N.of_nat (S (length kx1 + length kx2)) <= u32_max)%N) by (vm_compute; discriminate).
   destruct (numbers_cleanup_kill_restart (kc (KLogGz 1 1)) (CSize 3) (KLogGz 1 1) 1 1 0 0 kx1 5 kx2 kx3
               (kc_numkcfg _) eq_refl eq_refl (kc_sfx _) kx1_basic kx2_basic kx3_basic HL) as (Kk & pre & cl & oc & lo & V & E & T & Hlo & Hp & Hr).
   assert (Ew : written kx1 ++ acked (fst (run (sys0 0 0) (OStart (kc (KLogGz 1 1)) :: kx1 ++ [OSetKill 5]))) kx2 ++ written kx3
